@@ -159,6 +159,8 @@ def run(ctx):
         if e is False:
             cnt += 1
             touched = [k[1] for k, v in s.extra.items() if isinstance(k, tuple) and k[0] == 'n' and k[1].startswith('iface:')]
+            if s.extra.get('argtouch'):
+                touched.append('the call\'s own arguments (args[i] / kwargs[k] is evaluated)')
             if touched and bad is None:
                 bad = (n, s, touched)
     ca.instance('operation decorator, recording disabled: no cassette access on %d exits' % cnt, cl.qualname, bad is None)
@@ -166,6 +168,7 @@ def run(ctx):
         n, s, touched = bad
         res.add(Finding('C04', 'C04.a', 'R-DOM', cl.file, cl.qualname, cl.node.lineno,
                         'operation decorator with recording disabled touches %s' % ','.join(sorted(touched)),
-                        'with recording disabled the operation decorator must not touch the cassette',
+                        'with recording disabled the operation decorator must be a pure pass-through: it must neither touch the cassette nor '
+                        'evaluate the call\'s arguments (a call without positional arguments would fail in the decorator instead of running)',
                         witness=dom.path_to(n, s), entry=cl.qualname, exit=rm.exit_kind(n)))
     return res
